@@ -194,13 +194,59 @@ def run(ctx):
                                "classification": {"kind": "not-enqueued-fresh", "op": desc["op"]}, "replay": {"kind": "history", "env": {}, "scenario": lines}})
         if new and int(new[0][6]) >= int(new[0][5]):
             violations.append({"what": "%s left the new entry marked as read" % desc["op"], "classification": {"kind": "born-marked", "op": desc["op"]}, "replay": {"kind": "history", "env": {}, "scenario": lines}})
+    # a put onto an existing key whose first publication attempt fails once (a transient EIO on the
+    # link): whatever the library does next, a successful put leaves the entry's content and queue
+    # position alone and marks it as used
+    fput = []
+    for w in (("plain", 300), ("sharded", 4, 1200)):
+        KEYF = ("kk", 7, 9)
+        L = G.header(w, (), "none") + [G.plant(G.key_path(w, "w", KEYF), "OLDVALUE", mtime=G.T0 + 10**9, atime=G.T0),
+                                       G.plant(G.key_path(w, "w", ("other", 7, 9)), "x", mtime=G.T0 + 5 * 10**9, atime=G.T0),
+                                       G.NOFIRE, "snap", G.op(0, "put", KEYF, "NEWVALUE", 1), "snap"]
+        fput.append(({"w": w[0]}, L))
+    fjobs = []
+    for desc, L in fput:
+        clean = S.run_impl(L)
+        if not clean.steps:
+            continue
+        can, seqs = T.canon(clean.steps[0]["events"], with_seq=True)
+        for k, t in enumerate(can):
+            if t[0] in ("link", "futimens", "chmod") and k >= len(T.canon(clean.steps[0]["events"][:clean.steps[0]["staged_at"]])):
+                fjobs.append((desc, L, seqs[k], k, t[0]))
+    for desc, L, seq, k, call in fjobs:
+        try:
+            impl = S.run_impl(L, fault=(seq, "EIO"))
+            model = S.run_model(S.augment(L, impl, fault_by_step={1: (k, "EIO")}))
+            diffs = S.compare(L, impl, model)
+        except Exception as ex:
+            impl, diffs = None, ["EXCEPTION " + repr(ex)]
+        if diffs:
+            ties.append({"what": "model and implementation disagree (put onto an existing key, %s failing once)" % call, "case": str(desc), "detail": diffs[:3]})
+        else:
+            agree += 1
+        if impl is None or len(impl.snaps) < 2 or 1 not in impl.results:
+            continue
+        cls, d = S.fields(impl.results[1][1])
+        if cls != "OkUnit":
+            continue
+        kp = G.key_path(("plain", 300) if desc["w"] == "plain" else ("sharded", 4, 1200), "w", ("kk", 7, 9))
+        b = {l.split(" ")[0]: l.split(" ") for l in impl.snaps[0]}.get(kp)
+        a = {l.split(" ")[0]: l.split(" ") for l in impl.snaps[1]}.get(kp)
+        if b and a and (a[7] != b[7] or a[5] != b[5]):
+            violations.append({"what": "a put onto the existing %s whose %s failed once (EIO) reported success and changed the entry: content %s -> %s, modification time %s -> %s" % (kp, call, b[7], a[7], b[5], a[5]),
+                               "classification": {"kind": "put-reorders-under-fault", "call": call, "w": desc["w"]},
+                               "replay": {"kind": "history", "env": {}, "fault": [k, "EIO"], "scenario": L}})
+        elif b and a and int(a[6]) < int(a[5]):
+            violations.append({"what": "a successful put onto the existing %s (its %s failed once) did not mark the entry as used" % (kp, call),
+                               "classification": {"kind": "put-not-marked-under-fault", "call": call, "w": desc["w"]},
+                               "replay": {"kind": "history", "env": {}, "fault": [k, "EIO"], "scenario": L}})
     seen, uniq = set(), []
     for v in violations:
         k = tuple(sorted(v["classification"].items()))
         if k not in seen:
             seen.add(k); uniq.append(v)
-    cov = {"evaluations": len(res) + len(sched_runs) + len(ores), "distinct_nontrivial": nontriv + len(sched_runs), "steps": steps, "real_schedules_explored": len(sched_runs),
-           "rule": "operation sequences (30-60 steps) over 3-5 keys on plain, sharded and stacked front-ends under {kernel default relatime, emulated no-atime} x {native, 1 s, 2 s} timestamp granularity, run back to back so that reads fall in the granule of the insertion: after every step (rank order, read mark, content) of every entry is compared with the model run under the same policy, and the property's oracle is applied to the implementation's snapshots (a read marks and neither reorders nor rewrites, a put onto an existing key likewise, a set / inserting put is newest and unmarked). In addition every single context-switch schedule of {touch, get | set} on one key (real processes, gate mode) is run: the set's value must end up stamped with the time of the set. Non-trivial = coarse granularity or no-atime, or a real schedule.",
+    cov = {"evaluations": len(res) + len(sched_runs) + len(ores) + len(fjobs), "distinct_nontrivial": nontriv + len(sched_runs), "steps": steps, "real_schedules_explored": len(sched_runs),
+           "rule": "operation sequences (30-60 steps) over 3-5 keys on plain, sharded and stacked front-ends under {kernel default relatime, emulated no-atime} x {native, 1 s, 2 s} timestamp granularity, run back to back so that reads fall in the granule of the insertion: after every step (rank order, read mark, content) of every entry is compared with the model run under the same policy, and the property's oracle is applied to the implementation's snapshots (a read marks and neither reorders nor rewrites, a put onto an existing key likewise, a set / inserting put is newest and unmarked). In addition every single context-switch schedule of {touch, get | set} on one key (real processes, gate mode) is run: the set's value must end up stamped with the time of the set. Also a put onto an existing key with its link / re-stamp / chmod failing once (EIO): a put that still reports success leaves content and queue position alone and marks the entry. Non-trivial = coarse granularity or no-atime, or a real schedule.",
            "samples": samples, "traces_validated_against_impl": agree}
     if not ctx.quick():
         rc, o = C.coqchk(PROPS)
